@@ -290,7 +290,7 @@ class C04(Prop):
             "random: scenes of 0-14 (some 30-120) results on the k/8 lattice with confidence ties, FP-labelled and unknown GT, scores exactly on the threshold; "
             "non-trivial = at least 2 results and a defined AP")
     assumptions = ["scores compared within 1e-9 (binary64 rounding of cumsum/division)", "facts read through public getters of the real objects"]
-    not_proved = ["that #TP <= #GT in a frame (hypothesis here; C01/C03)", "binary64 rounding", "the explicit rank-order formula sum_i (r_i - r_{i-1}) max_{j>=i} p_j is stated as ap_spec in reversed orientation"]
+    not_proved = ["that #TP <= #GT in a frame (hypothesis here; C01/C03)", "binary64 rounding"]
 
     def correspondences(self):
         return [ApCorr(), MapCorr()]
